@@ -551,6 +551,9 @@ def author_wiring(report, p, pr):
                 if not srcs:
                     continue  # constants etc.
                 want = "author_" + fld
+                if len(srcs) > 1:
+                    # the value travels inside an object that bundles several options (a record / tuple the rule cannot take apart): no verdict
+                    raise AnalysisError(f"{f.loc(call)}: the value bound to MHLAuthor.{fld} depends on several command options {sorted(srcs)} (bundled in one object); the option-to-attribute wiring cannot be judged on this shape")
                 r8.check(srcs == {want}, f, call, f"MHLAuthor.{fld} (written as the {fld} {'text' if fld == 'name' else 'attribute'} of <author>) is filled from {sorted(srcs)} instead of --{want}", construct=f"author {fld} <- {sorted(srcs)}")
 
 
